@@ -1035,6 +1035,9 @@ struct ProgGen {
       }
       for (auto &in : mod_imports[m]) items.push_back ({Item::IMPORT, -1, in});
       for (auto &fn : mod.funcs) items.push_back ({Item::EXPORT, -1, fn.name});
+      if (cfg.passive_data)  // section heads are exported so that a loader can look at the section contents
+        for (auto &d : mod.datas)
+          if (!d.name.empty () && d.name.compare (0, 2, "ds") == 0) items.push_back ({Item::EXPORT, -1, d.name});
       items.insert (items.end (), mod.items.begin (), mod.items.end ());
       mod.items = items;
     }
